@@ -3,7 +3,7 @@
    declarations with Deps restricted to the names declared in ds (DeclMap.RemoveUnresolvableDeps).
    Theorems quantify over ALL declaration lists; the order theorems that need pairwise distinct names say so. *)
 From Coq Require Import List NArith ZArith Bool Permutation.
-From Verif Require Import Common.GoStr C17.Model C17.Proof C17.Spec C17.Order C17.Phase C17.Fuel C17.ScopeModel C17.ScopeProof.
+From Verif Require Import Common.GoStr C17.Model C17.Proof C17.Spec C17.Order C17.Phase C17.Fuel C17.ScopeModel C17.ScopeProof C17.VarsModel C17.VarsProof.
 Import ListNotations.
 
 (* every declaration is emitted exactly once; the only additional entries are TypeFwd copies of type declarations *)
@@ -87,6 +87,23 @@ Theorem C17_deps_are_free_names_partial : forall s0 s1 rest top n,
   is_local (s0 :: s1 :: rest) n = str_in n s0 || existsb (str_in n) rest.
 Proof. exact is_local_partial. Qed.
 Print Assumptions C17_deps_are_free_names_partial.
+
+(* ---- extraction stage, one var spec with several names: var n0, n1, ... T = v0, v1, ... (base/dep/scope.go Scope.Vars,
+   model C17/VarsModel.v: Go slices as views into backing arrays, append in place when the capacity allows) ----
+   the code as written (append(dup(typDeps), valueDeps...)): whatever the capacity of the slice computed for the type
+   expression, every name ends with the type's dependencies followed by the dependencies of ITS OWN initialiser *)
+Theorem C17_vars_deps_per_name : forall (A : Type) (st : @store A) typ vals, sl_ok st typ ->
+  vars_deps true st typ vals = vars_spec st typ vals.
+Proof. exact (@vars_deps_dup). Qed.
+Print Assumptions C17_vars_deps_per_name.
+
+(* without dup the lists of earlier names are overwritten by later names as soon as the type's slice has spare capacity:
+   var a, b map[K]K = f(), g()  (typDeps = [K], capacity 2 after sort_unique_inplace)  leaves a with [K; g] instead of [K; f] *)
+Theorem C17_vars_shared_backing_refuted : exists (st : @store nat) typ vals,
+  sl_ok st typ /\ vars_deps false st typ vals <> vars_spec st typ vals /\
+  nth 0 (vars_deps false st typ vals) [] = [1; 3] /\ nth 0 (vars_spec st typ vals) [] = [1; 2].
+Proof. exact vars_deps_nodup_refuted. Qed.
+Print Assumptions C17_vars_shared_backing_refuted.
 
 (* ---- non-vacuity: the five mutually recursive structs of DESIGN 7 #15 and a var cycle ---- *)
 Definition A := [65%N]. Definition B := [66%N]. Definition C := [67%N]. Definition D := [68%N]. Definition E := [69%N].
